@@ -18,20 +18,20 @@ const specMaxBody = 268435455
 // specU16 is the big-endian 16-bit integer at b[at:at+2].
 func specU16(b []byte, at int) uint16 { return uint16(b[at])<<8 | uint16(b[at+1]) }
 
-//@ verify writeUint16 pre=pre_writeUint16 post=post_writeUint16 props=C16,C09
+// @ verify writeUint16 pre=pre_writeUint16 post=post_writeUint16 props=C16,C09
 func pre_writeUint16(buf []byte) bool { return len(buf) >= 2 }
 func post_writeUint16(buf []byte, v uint16, old_buf []byte, res0 int) bool {
 	return res0 == 2 && specU16(buf, 0) == v &&
 		vs.Forall(2, len(buf), func(i int) bool { return buf[i] == old_buf[i] })
 }
 
-//@ verify writeUint8 pre=pre_writeUint8 post=post_writeUint8 props=C16,C09
+// @ verify writeUint8 pre=pre_writeUint8 post=post_writeUint8 props=C16,C09
 func pre_writeUint8(buf []byte) bool { return len(buf) >= 1 }
 func post_writeUint8(buf []byte, v uint8, old_buf []byte, res0 int) bool {
 	return res0 == 1 && buf[0] == v && vs.Forall(1, len(buf), func(i int) bool { return buf[i] == old_buf[i] })
 }
 
-//@ verify boolToUInt8 post=post_boolToUInt8 props=C16
+// @ verify boolToUInt8 post=post_boolToUInt8 props=C16
 func post_boolToUInt8(v bool, res0 uint8) bool { return (v && res0 == 1) || (!v && res0 == 0) }
 
 // specRLBytes is the number of remaining-length digits of n (2.2.3, n < 2^28).
@@ -70,18 +70,152 @@ func specRLField(n uint32) uint32 {
 	return specRLDigit(n, 0)<<24 | specRLDigit(n, 1)<<16 | specRLDigit(n, 2)<<8 | specRLDigit(n, 3)
 }
 
-//@ verify encodeLength pre=pre_encodeLength post=post_encodeLength props=C16
-//@ loop encodeLength 0 unroll 4
+// @ verify encodeLength pre=pre_encodeLength post=post_encodeLength props=C16
+// @ loop encodeLength 0 unroll 4
 func pre_encodeLength(bodyLength uint32) bool { return bodyLength < 268435456 }
 func post_encodeLength(bodyLength uint32, res0 uint8, res1 uint32) bool {
 	return res0 == specRLBytes(bodyLength) && res1 == specRLField(bodyLength)
 }
 
 // readUint16 / readString: the cursor protocol of the decoders.
-//@ verify readUint16 pre=pre_readUint16 post=post_readUint16 props=C16
+// @ verify readUint16 pre=pre_readUint16 post=post_readUint16 props=C16
 func pre_readUint16(b []byte, startsAt *uint32) bool {
 	return startsAt != nil && int(*startsAt)+2 <= len(b) && len(b) <= specMaxBody
 }
 func post_readUint16(b []byte, startsAt *uint32, old_startsAt uint32, res0 uint16) bool {
 	return *startsAt == old_startsAt+2 && res0 == specU16(b, int(old_startsAt))
+}
+
+// @ verify readString pre=pre_readUint16 post=post_readString props=C16
+func post_readString(b []byte, startsAt *uint32, old_startsAt uint32, res0 []byte, res1 error) bool {
+	at := int(old_startsAt)
+	n := int(specU16(b, at))
+	if at+2+n > len(b) { // the announced length runs past the buffer: refused
+		return res1 != nil
+	}
+	return res1 == nil && int(*startsAt) == at+2+n && vs.SameBytes(res0, b[at+2:at+2+n])
+}
+
+// @ verify writeString pre=pre_writeString post=post_writeString_len,post_writeString_body,post_writeString_frame props=C16
+func pre_writeString(buf, v []byte) bool {
+	return len(v) <= 65535 && len(buf) >= 2+len(v) && vs.Disjoint(buf, v)
+}
+func post_writeString_len(buf, v []byte, res0 int) bool {
+	return res0 == 2+len(v) && int(specU16(buf, 0)) == len(v)
+}
+func post_writeString_body(buf, v []byte) bool {
+	return vs.Forall(0, len(v), func(i int) bool { return buf[2+i] == v[i] })
+}
+func post_writeString_frame(buf, v []byte, old_buf []byte) bool {
+	return vs.Forall(2+len(v), len(buf), func(i int) bool { return buf[i] == old_buf[i] })
+}
+
+// specFirstByte is byte 1 of the fixed header (2.2.1, 2.2.2): type in the high nibble, then DUP, QoS, RETAIN.
+func specFirstByte(typ uint8, h *Header) byte {
+	if h == nil {
+		return typ << 4
+	}
+	return typ<<4 | boolToUInt8(h.DUP)<<3 | h.QOS<<1 | boolToUInt8(h.Retain)
+}
+
+// @ verify writeHeader pre=pre_writeHeader post=post_writeHeader props=C16
+// @ loop writeHeader 0 unroll 5
+func pre_writeHeader(buf []byte, msgType uint8, h *Header, length int) bool {
+	return len(buf) == maxHeaderSize && msgType < 16 && 0 <= length && length < 268435456 && (h == nil || h.QOS < 4)
+}
+func post_writeHeader(buf []byte, msgType uint8, h *Header, length int, res0 int) bool {
+	n := int(specRLBytes(uint32(length)))
+	return res0 == 5-n && buf[res0] == specFirstByte(msgType, h) &&
+		vs.Forall(0, n, func(k int) bool { return uint32(buf[res0+1+k]) == specRLDigit(uint32(length), uint8(k)) })
+}
+
+// ---------------------------------------------------------------------------------------------------------
+// 3.1 CONNECT: variable header = protocol name (string), level (1), connect flags (1), keep alive (2);
+// payload = client id, [will topic, will message], [user name], [password], in that order (3.1.3).
+
+// specStrOK: a length-prefixed string starts at b[at] and fits.
+func specStrOK(b []byte, at int) bool {
+	return at+2 <= len(b) && at+2+int(specU16(b, at)) <= len(b)
+}
+
+// specStrEnd is the offset just after the string that starts at b[at].
+func specStrEnd(b []byte, at int) int { return at + 2 + int(specU16(b, at)) }
+
+// specStrIs: s is the string that starts at b[at].
+func specStrIs(s, b []byte, at int) bool { return vs.SameBytes(s, b[at+2:specStrEnd(b, at)]) }
+
+// specConnectFlags is the connect-flags byte (3.1.2.3), i.e. the byte after the protocol level.
+func specConnectFlags(d []byte) byte { return d[specStrEnd(d, 0)+1] }
+
+// specConnectAt gives the offset of the k-th optional payload string (0 client id, 1 will topic, 2 will message,
+// 3 user name, 4 password), assuming the ones before it are present as the flags say.
+func specConnectAt(d []byte, k int) int {
+	fl := specConnectFlags(d)
+	at := specStrEnd(d, 0) + 4 // client id
+	if k == 0 {
+		return at
+	}
+	at = specStrEnd(d, at)
+	if fl&0x04 != 0 { // will flag
+		if k == 1 {
+			return at
+		}
+		at = specStrEnd(d, at)
+		if k == 2 {
+			return at
+		}
+		at = specStrEnd(d, at)
+	}
+	if fl&0x80 != 0 { // user name flag
+		if k == 3 {
+			return at
+		}
+		at = specStrEnd(d, at)
+	}
+	return at
+}
+
+// specConnectWF: d is a well-formed CONNECT body.
+func specConnectWF(d []byte) bool {
+	if len(d) > specMaxBody || !specStrOK(d, 0) || specStrEnd(d, 0)+4 > len(d) {
+		return false
+	}
+	fl := specConnectFlags(d)
+	if !specStrOK(d, specConnectAt(d, 0)) {
+		return false
+	}
+	if fl&0x04 != 0 && !(specStrOK(d, specConnectAt(d, 1)) && specStrOK(d, specConnectAt(d, 2))) {
+		return false
+	}
+	if fl&0x80 != 0 && !specStrOK(d, specConnectAt(d, 3)) {
+		return false
+	}
+	if fl&0x40 != 0 && !specStrOK(d, specConnectAt(d, 4)) {
+		return false
+	}
+	return true
+}
+
+func pre_decodeConnect(data []byte) bool { return specConnectWF(data) }
+
+// @ verify decodeConnect pre=pre_decodeConnect post=post_decodeConnect_fixed,post_decodeConnect_willqos,post_decodeConnect_strings props=C16
+func post_decodeConnect_fixed(data []byte, res0 Message, res1 error) bool {
+	c, ok := res0.(*Connect)
+	p := specStrEnd(data, 0)
+	fl := specConnectFlags(data)
+	return ok && res1 == nil && c.Version == data[p] && c.KeepAlive == specU16(data, p+2) &&
+		c.UsernameFlag == (fl&0x80 != 0) && c.PasswordFlag == (fl&0x40 != 0) && c.WillRetainFlag == (fl&0x20 != 0) &&
+		c.WillFlag == (fl&0x04 != 0) && c.CleanSeshFlag == (fl&0x02 != 0)
+}
+func post_decodeConnect_willqos(data []byte, res0 Message, res1 error) bool { // 3.1.2.6: bits 4 and 3
+	c, ok := res0.(*Connect)
+	return ok && c.WillQOS == (specConnectFlags(data)>>3)&3
+}
+func post_decodeConnect_strings(data []byte, res0 Message, res1 error) bool {
+	c, ok := res0.(*Connect)
+	fl := specConnectFlags(data)
+	return ok && specStrIs(c.ProtoName, data, 0) && specStrIs(c.ClientID, data, specConnectAt(data, 0)) &&
+		(fl&0x04 == 0 || (specStrIs(c.WillTopic, data, specConnectAt(data, 1)) && specStrIs(c.WillMessage, data, specConnectAt(data, 2)))) &&
+		(fl&0x80 == 0 || specStrIs(c.Username, data, specConnectAt(data, 3))) &&
+		(fl&0x40 == 0 || specStrIs(c.Password, data, specConnectAt(data, 4)))
 }
